@@ -4,6 +4,7 @@ From B2Z Require Import Base.Prims Model.Spec Model.Icf Pipeline.Rows Pipeline.B
 From B2Z Require Gen.GenBuffer.
 From B2Z Require Import Base.SanPrims Gen.GenSanitise Bridge.BridgeSanitise.
 From B2Z Require Import Base.EncSkel Gen.GenEncoders Bridge.BridgeEncoders.
+From B2Z Require Gen.GenExplode Bridge.BridgeExplode.
 Import ListNotations.
 Open Scope nat_scope.
 
@@ -243,6 +244,17 @@ Example skel_check_refuses :
   skel_ok {| nbufs := 1; offs := [OffPartStart]; arrays := [0]; inits := [0]; srcs := [SrcPartition]; body := [ENext 0; EWrite 0 0]; finals := []; finalised := [0] |} = false /\
   skel_ok {| nbufs := 2; offs := [OffPartStart; OffPartStart]; arrays := [0; 1]; inits := [0; 1]; srcs := [SrcPartition]; body := [ENext 0; EWrite 1 0; ENext 1; EWrite 0 0]; finals := [0; 1]; finalised := [0; 1] |} = false.
 Proof. vm_compute. repeat split; reflexivity. Qed.
+
+(* ---- TRANSLATOR TIE: the explode side.  The record loop of process_partition and fixed_vcf_field_definitions as read off the
+   source on this run (translator/explode2coq.py): the records are those of ivcf.variants(partition.region), each counted
+   once; every defined fixed field (CHROM POS QUAL ID FILTERS REF ALT rlen, with the VCF types / numbers the mapping assumes)
+   gets exactly one append per record, from the record attribute of the same name (rlen = end - start); every INFO field
+   (an absent key as None), GT when the header has it (a record without GT as None) and every other FORMAT field get exactly
+   one append per record; LAA is computed before LPL.  So every column of the intermediate store has one value per record,
+   in record order -- the premise of the pipeline theorems. *)
+Theorem translated_record_loop : (BridgeExplode.fixed_fields_once && BridgeExplode.per_field_once && BridgeExplode.fixed_fields_typed)%bool = true.
+Proof. exact BridgeExplode.translated_record_loop_lemma. Qed.
+Print Assumptions translated_record_loop.
 
 Example c01_instance :
   enc_vec (-1)%Z (-2)%Z 3 (Some [Some 7%Z; None]) = [7; -1; -2]%Z /\ dec_vec (-1)%Z (-2)%Z [7; -1; -2]%Z = Some [Some 7%Z; None] /\
